@@ -20,6 +20,10 @@ func init() {
 			"NOT decided: equality of Result with the payload for every chunk partition (cursor arithmetic beyond bounds), the message-boundary regular expressions of the reader, read segmentation.",
 		Assumptions: []string{"no integer overflow in cursor arithmetic (sizes are bounded by the length of the data by the guards themselves)", "bytes.Trim*/TrimSpace/TrimPrefix return sub-slices of their argument", "bytes.IndexByte / strings.IndexByte return -1 or an index smaller than the length of their first argument (documented result)"},
 		Mutants: []Mutant{
+			{ID: "C02-marker-without-element", Desc: "recordFailed gives up when the error-text pattern finds nothing", Rule: "C02/mark-failed",
+				Edits: []Edit{{File: "response/netconf.go", Old: "\tpatterns := getNetconfPatterns()\n\n\tr.Failed = &OperationError{", New: "\tpatterns := getNetconfPatterns()\n\n\tif patterns.rpcErrors.Find(b) == nil {\n\t\treturn\n\t}\n\n\tr.Failed = &OperationError{"}}},
+			{ID: "C02-delimiter-before-preference", Desc: "the delimiter is installed before the preferred-version override", Rule: "C02/found-netconf-version",
+				Edits: []Edit{{File: "driver/netconf/capabilities.go", Old: "\tswitch d.SelectedVersion {\n\tcase V1Dot0:\n\t\td.Channel.PromptPattern = ncPatterns.v1Dot0Delim\n\tcase V1Dot1:\n\t\td.Channel.PromptPattern = ncPatterns.v1Dot1Delim\n\t}\n\n\treturn nil", New: "\tif d.ServerHasCapability(v1Dot1Cap) {\n\t\td.Channel.PromptPattern = ncPatterns.v1Dot1Delim\n\t} else {\n\t\td.Channel.PromptPattern = ncPatterns.v1Dot0Delim\n\t}\n\n\treturn nil"}}},
 			{ID: "C02-eom-window", Desc: "reader looks for the end-of-message marker in the last 1000 bytes only", Rule: "C02/eom-whole-buffer",
 				Edits: []Edit{{File: "driver/netconf/read.go", Old: "\t\tfor d.Channel.PromptPattern.Match(b) { //nolint: nestif", New: "\t\ttail := b\n\t\tif len(tail) > d.Channel.PromptSearchDepth {\n\t\t\ttail = tail[len(tail)-d.Channel.PromptSearchDepth:]\n\t\t}\n\n\t\tfor d.Channel.PromptPattern.Match(tail) { //nolint: nestif"},
 					{File: "driver/netconf/read.go", Old: "\t\t\t\tb = []byte(ss[1])\n\n\t\t\t\tcontinue", New: "\t\t\t\tb = []byte(ss[1])\n\t\t\t\ttail = b\n\n\t\t\t\tcontinue"},
@@ -54,6 +58,9 @@ func runC02(c *Ctx, r *Report) {
 	importFoundation(c, r, "C02", "netconf-reader")
 	importFoundation(c, r, "C02", "read-loop")
 	importFoundation(c, r, "C02", "transport-pipe")
+	importFoundation(c, r, "C02", "netconf-version")
+	r.Rule("C02/mark-failed", "recordFailed stores a non-nil Failed on every path on which one of the response's failure markers was found in the bytes it was given", 1)
+	checkNetconfMarkFailed(c, r, "C02/mark-failed")
 	r.Rule("C02/bounds", "every index/slice of the decoder satisfies 0<=i<len / 0<=lo<=hi<=len (len, not cap) on every path", 20)
 	r.Rule("C02/conv-checked", "every strconv conversion error is tested and leads to an error return", 1)
 	r.Rule("C02/failed-on-parse-error", "every error of the chunk parser stores a non-nil OperationError in Failed", 1)
